@@ -271,6 +271,9 @@ func init() {
 	reg(F+"ZeroInt", func(fr *frame, a []value) value { return fr.intConst(big.NewInt(0)) })
 	reg(F+"OneInt", func(fr *frame, a []value) value { return fr.intConst(big.NewInt(1)) })
 	reg(F+"NewIntFromString", func(fr *frame, a []value) value {
+		if t, ok := fr.i.eng.symStrings[a[0].(string)]; ok {
+			return tuple{IntV{t}, true}
+		}
 		b, ok := new(big.Int).SetString(a[0].(string), 10)
 		if !ok {
 			return tuple{IntV{}, false}
@@ -365,6 +368,8 @@ func init() {
 		if v, ok := x.T.ConstRat(); ok {
 			return ratString(v)
 		}
+		// a symbolic integer prints as a tag that NewIntFromString maps back to the same term
+		fr.i.eng.symStrings["<sym:"+fmt.Sprint(x.T.ID)+">"] = x.T
 		return "<sym:" + fmt.Sprint(x.T.ID) + ">"
 	})
 	reg(I+"Int64", func(fr *frame, a []value) value {
